@@ -263,13 +263,19 @@ func c10One(cc c10Cell, cs c10Case) (string, string, int) {
 			return "unlimited-expires", fmt.Sprintf("UnlimitedTTL without context TTL: ExpireAt=%v (unixnano %d), want never (0)", E, E.UnixNano()), ops
 		}
 
+		// another key of the same cache gets a per-call TTL (the cache now has expirations to look after), a century
+		// passes, and the cleanup cycle runs: "never" means never
+		_ = b.Write(cache.WithTTL(ctx, time.Second, false), []byte("short-lived"), 1)
+
 		vclock.Advance(100 * 365 * 24 * time.Hour)
+		b.Cleanup()
+		ops += 2
 
 		v, err := b.Read(ctx, key)
 		ops++
 
 		if err != nil || v != 7 {
-			return "unlimited-expired", fmt.Sprintf("UnlimitedTTL entry not served after 100y: (%v, %v)", v, err), ops
+			return "unlimited-expired", fmt.Sprintf("UnlimitedTTL entry not served after 100y and a cleanup cycle: (%v, %v)", v, err), ops
 		}
 
 		return "", "never", ops
